@@ -51,6 +51,8 @@ func genC10(r *hysim.Rand, tier string) *hysim.Script {
 	sc.Cfg["s_cong"] = int64(r.Intn(len(c10Cong)))
 	sc.Cfg["hdr"] = int64(r.Intn(len(c10Headers)))
 	sc.Cfg["wire"] = int64(r.Pick(0, 0, 1))
+	sc.Cfg["second_hdr"] = int64(r.Pick(-1, -1, r.Intn(len(c10Headers)))) // raw server: a second handshake with the same Config value
+	sc.Cfg["twin_auth"] = int64(r.Pick(0, 0, 1))                          // raw client: a second auth request in flight together with the first
 	sc.Cfg["net_delay_us"] = int64(r.Pick(200, 1000, 5000))
 	if r.Chance(1, 4) && sc.Cfg["wire"] == 0 {
 		sc.Cfg["net_loss"] = int64(r.Pick(10, 40))
@@ -254,11 +256,59 @@ func execC10(x *hysim.Run) {
 		if hdr != "<missing>" {
 			h["Hysteria-Cc-Rx"] = []string{hdr}
 		}
+		twin := sc.Get("twin_auth", 0) == 1
+		twinDone := make(chan struct{})
+		if twin {
+			// a slow authenticator and a second auth request (declaring another rate) that arrives
+			// while the first is still being decided: the connection is negotiated exactly once
+			w.authDelay = 40 * time.Millisecond
+			hysim.Go("harness:twin-auth", func() {
+				defer close(twinDone)
+				time.Sleep(time.Duration(sc.Get("net_delay_us", 200)) * time.Microsecond / 2)
+				h2 := http.Header{}
+				h2.Set("Hysteria-Auth", "good-alice")
+				h2.Set("Hysteria-CC-RX", "123456")
+				_ = rc.do("POST", "hysteria", "/auth", h2, nil, 20*time.Second)
+			})
+		} else {
+			close(twinDone)
+		}
 		resp := rc.do("POST", "hysteria", "/auth", h, nil, 20*time.Second)
+		<-twinDone
 		if resp.err != nil || resp.status != protocol.StatusAuthOK {
 			x.Inconclusive("raw auth failed")
 			rc.close()
 			break
+		}
+		if twin {
+			ncalls, nconn := 0, 0
+			var firstTx uint64
+			for _, a := range w.authCalls {
+				if a.addr == rc.local {
+					if ncalls == 0 {
+						firstTx = a.tx
+					}
+					ncalls++
+				}
+			}
+			for _, e := range w.events {
+				if e.kind == "connect" && e.addr == rc.local {
+					nconn++
+				}
+			}
+			_, _, ninst := installed(true, rc.local)
+			if ninst > 1 || nconn > 1 {
+				x.Violate("rate-renegotiated", "two auth requests in flight together on one connection: %d controller installations, %d connect events, authenticator consulted %d times - the connection must be negotiated once", ninst, nconn, ncalls)
+				rc.close()
+				break
+			}
+			x.Probe("twin-auth-negotiated-once")
+			if v, valid, _ := c10ParseDecimal(hdr); !(valid && v == firstTx) && !(hdr == "<missing>" && firstTx == 0) && firstTx == 123456 {
+				// the second request won: the first one's header decides nothing
+				x.Probe("twin-auth-second-request-won")
+				rc.close()
+				break
+			}
 		}
 		var connectTx uint64
 		for _, e := range w.events {
@@ -324,10 +374,11 @@ func execC10(x *hysim.Run) {
 		if err != nil {
 			hysim.HarnessBug("raw server listen: %v", err)
 		}
+		curHdr := hdr
 		h3s := &http3.Server{Handler: http.HandlerFunc(func(rw http.ResponseWriter, r *http.Request) {
 			rw.Header().Set("Hysteria-UDP", "true")
-			if hdr != "<missing>" {
-				rw.Header()["Hysteria-Cc-Rx"] = []string{hdr}
+			if curHdr != "<missing>" {
+				rw.Header()["Hysteria-Cc-Rx"] = []string{curHdr}
 			}
 			rw.Header().Set("Hysteria-Padding", "pppppppppppppppp")
 			rw.WriteHeader(protocol.StatusAuthOK)
@@ -344,33 +395,50 @@ func execC10(x *hysim.Run) {
 			}
 		})
 		f := &wConnFactory{w: w, ip: "10.0.4.1"}
-		cl, info, err := client.NewClient(w.clientConfig(f, wClientOpts{Auth: "x", MaxTx: cTx, MaxRx: cRx, CongType: cCong[0], BBRProfile: cCong[1], MaxIdle: 8 * time.Second, KeepAlive: 2 * time.Second}))
-		if err != nil {
-			x.Inconclusive("connect to raw server failed")
-		} else {
-			cAddr := f.eps[0].LocalAddr().String()
-			v, valid, overflow := c10ParseDecimal(hdr)
-			var alts []uint64
-			fixed := false
-			want := uint64(0)
-			switch {
-			case hdr == "auto":
-			case cTx == 0:
-			case valid:
-				fixed = true
-				want = cTx
-				if v != 0 && v < cTx {
-					want = v
+		// one Config value for every connection this client makes (an embedder may re-use it, the
+		// reconnecting client's config function may return the same one): what one handshake
+		// learnt must not leak into the next
+		ccfg := w.clientConfig(f, wClientOpts{Auth: "x", MaxTx: cTx, MaxRx: cRx, CongType: cCong[0], BBRProfile: cCong[1], MaxIdle: 8 * time.Second, KeepAlive: 2 * time.Second})
+		rounds := []string{hdr}
+		if sc.Get("second_hdr", -1) >= 0 {
+			rounds = append(rounds, c10Headers[int(uint64(sc.Get("second_hdr", 0))%uint64(len(c10Headers)))])
+		}
+		for ri, hdr := range rounds {
+			curHdr = hdr
+			cl, info, err := client.NewClient(ccfg)
+			if err != nil {
+				x.Inconclusive("connect to raw server failed")
+			} else {
+				cAddr := f.eps[ri].LocalAddr().String()
+				if ri > 0 {
+					x.Probe("config-reused-for-second-handshake")
 				}
-			case overflow:
-				alts = []uint64{cTx}
-			default:
-				// missing / malformed: "unlimited" (own limit) or congestion control, never more than the own limit
-				alts = []uint64{cTx}
+				v, valid, overflow := c10ParseDecimal(hdr)
+				var alts []uint64
+				fixed := false
+				want := uint64(0)
+				switch {
+				case hdr == "auto":
+				case cTx == 0:
+				case valid:
+					fixed = true
+					want = cTx
+					if v != 0 && v < cTx {
+						want = v
+					}
+				case overflow:
+					alts = []uint64{cTx}
+				default:
+					// missing / malformed: "unlimited" (own limit) or congestion control, never more than the own limit
+					alts = []uint64{cTx}
+				}
+				judge("client", false, cAddr, info.Tx, fixed, want, alts, congKind(cCong))
+				x.Probe("raw-server-header")
+				_ = cl.Close()
 			}
-			judge("client", false, cAddr, info.Tx, fixed, want, alts, congKind(cCong))
-			x.Probe("raw-server-header")
-			_ = cl.Close()
+			if x.Violated() || err != nil {
+				break
+			}
 		}
 		_ = ln.Close()
 		_ = h3s.Close()
